@@ -109,7 +109,7 @@ def dedup : List Lid → List Lid
   | [] => []
   | x :: xs => x :: (dedup xs).filter (fun y => y != x)
 
-/-- `TunnelEndpoint.notify_listeners(packet, from_tunnel)` (after commit dc05667): selects the listeners like the wrapped
+/-- `TunnelEndpoint.notify_listeners(packet, from_tunnel)` (after commit 36004a4): selects the listeners like the wrapped
     endpoint does (prefix map, else the generic listeners), skips those whose `anonymize` flag differs from `from_tunnel`,
     delivers once per listener -/
 def World.reachTunnel (w : World) (p : Pfx) (fromTunnel : Bool) : List Lid :=
